@@ -44,3 +44,13 @@ Theorem C06_capacity_total : forall sortf,
   exists c, node_capacity_g sortf info base maxshare req numa_order fuel = Ok c.
 Proof. exact node_capacity_total. Qed.
 Print Assumptions C06_capacity_total.
+
+(* CalculateRealloc: the origin's resources are given back, then the same planner runs
+   with the origin map (affinity path) *)
+Theorem C06_realloc_total : forall sortf,
+  (forall l, exists l', sortf l = Ok l' /\ Permutation l' l) ->
+  forall info base maxshare origin raw numa_order fuel,
+  0 < base -> (default_fuel (realloc_info info origin) <= fuel)%nat ->
+  exists r, calculate_realloc_g sortf info base maxshare origin raw numa_order fuel = Ok r.
+Proof. exact calculate_realloc_total. Qed.
+Print Assumptions C06_realloc_total.
